@@ -12,6 +12,8 @@ using namespace bpp;
 // From the STL:
 #include <cmath>
 
+#include <limits>
+
 using namespace std;
 
 /** Constructor: **************************************************************/
@@ -55,7 +57,30 @@ void GaussianDiscreteDistribution::fireParameterChanged(const ParameterList& par
 
 double GaussianDiscreteDistribution::qProb(double x) const
 {
-  return RandomTools::qNorm(x, mu_, sigma_);
+  double q = RandomTools::qNorm(x, mu_, sigma_);
+  if (q == -9999)
+  {
+    // qNorm does not cover the far tails: it answers its error value -9999 for probabilities below
+    // 1e-20 (and for 1, the only double above 1 - 1e-20).  There the quantile is the smallest point
+    // where pNorm reaches the probability, found by bisection (pNorm is 0 below mu - 40 sigma).
+    if (!(x > 0))
+      return -std::numeric_limits<double>::infinity();
+    if (!(x < 1))
+      return std::numeric_limits<double>::infinity();
+    double low = mu_ - 40 * sigma_, up = mu_;
+    for (int i = 0; i < 200; ++i)
+    {
+      double mid = low + (up - low) / 2;
+      if (!(mid > low && mid < up))
+        break;
+      if (RandomTools::pNorm(mid, mu_, sigma_) < x)
+        low = mid;
+      else
+        up = mid;
+    }
+    q = up;
+  }
+  return q;
 }
 
 double GaussianDiscreteDistribution::pProb(double x) const
